@@ -78,6 +78,71 @@ def h16_handle(S, script_len=3, dependency=False):
             used = True
 
 
+def h16_queue_iteration(S):
+    """Messages iterated from a queue that is bound to an explicit connection act on that connection's broker - whatever the
+    thread's default connection is (another one, or none)."""
+    from repid import Connection, InMemoryMessageBroker, Queue, Repid
+    import repid.data._parameters as P
+    from repid.data._key import RoutingKey
+    from repid.message import MessageCategory
+
+    action = ["ack", "nack", "reject", "reschedule", "retry", "force_retry"][S.pick("action", 6)]
+    default = ["another-connection", "none"][S.pick("thread_default_connection", 2)]
+    S.tag("action", action)
+    out = {}
+
+    async def main(loop):
+        bx, bd = InMemoryMessageBroker(), InMemoryMessageBroker()
+        cx, cd = Connection(bx), Connection(bd)
+        await cx.connect()
+        await bx.queue_declare("default")
+        await bd.queue_declare("default")
+        rx, rd = Recorder(bx), Recorder(bd)
+        await bx.enqueue(RoutingKey(topic="job", queue="default", id_="m1"), "pl",
+                         P.Parameters(retries=P.RetriesProperties(max_amount=2), timestamp=P.datetime.now()))
+        rx.calls.clear()
+        rep = Repid(cd)
+        if default == "another-connection":
+            await rep.magic_connect()
+        else:
+            await rep.magic_connect()
+            await rep.magic_disconnect()
+        try:
+            n = 0
+            try:
+                async for msg in Queue("default", _connection=cx).get_messages():
+                    n += 1
+                    try:
+                        await getattr(msg, action)()
+                        out["outcome"] = "returned"
+                    except Exception as e:  # noqa: BLE001
+                        out["outcome"] = f"{type(e).__name__}: {e}"
+                    try:
+                        await msg.ack()
+                        out["second"] = "accepted"
+                    except ValueError:
+                        out["second"] = "refused"
+                    break
+            except ValueError as e:
+                out["outcome"] = f"iteration failed: {e}"
+            out["n"] = n
+        finally:
+            if default == "another-connection":
+                await rep.magic_disconnect()
+        out["x_ops"] = [c["op"] for c in rx.calls]
+        out["d_ops"] = [c["op"] for c in rd.calls]
+        out["places"] = place_names(mem_places(bx), "m1")
+
+    run_async(main, clock=PinnedClock(T0))
+    S.cover("queue-iterated")
+    S.check("iteration-yields-the-message", out.get("n") == 1, info=str(out))
+    S.check("action-succeeds", out.get("outcome") == "returned", info=str(out.get("outcome")))
+    S.check("action-reaches-the-queues-own-broker", out["x_ops"] == [BROKER_OP[action]], info=f"own broker saw {out['x_ops']}, the default connection's broker saw {out['d_ops']}")
+    S.check("no-other-broker-is-touched", out["d_ops"] == [], info=str(out["d_ops"]))
+    S.check("second-action-refused", out.get("second") == "refused", info=str(out.get("second")))
+    S.check("message-left-the-holder", "processing" not in out["places"], info=str(out["places"]))
+
+
 def h16_redis_chain(S):
     """Message handles over Redis across deliveries: the counter a retry wrote is what the next delivery's handle sees."""
     from fakes import redis as fr
@@ -259,6 +324,10 @@ HARNESSES = [
     Harness(name="H16-redis-chain", scenario=h16_redis_chain,
             bounds={"budget": "0..2", "history": "deliver, answer with retry() (the first answer possibly force_retry()), deliver again, ... until retry() is refused", "broker": "Redis on the fake server"},
             functions=["message.py:Message.retry", "connections/redis/message_broker.py:RedisMessageBroker.requeue"], covers=["redis-chain"], stubs=["fake Redis server"]),
+    Harness(name="H16-queue-iteration", scenario=h16_queue_iteration,
+            bounds={"message": "one waiting message, iterated with Queue(name, _connection=X).get_messages()", "action": "each of the six",
+                    "thread's default connection": "another connection / none"},
+            functions=["queue.py:Queue.get_messages", "message.py:Message.ack"], covers=["queue-iterated"]),
     Harness(name="H16-handle-message", scenario=h16_handle, workers=16,
             params={"quick": {"script_len": 3}, "thorough": {"script_len": 4}},
             bounds={"script": "3 (quick) / 4 (thorough) calls from {ack, nack, reject, reschedule, retry, force_retry}", "category": "NORMAL / DELAYED / DEAD",
